@@ -162,9 +162,8 @@ theorem C14_fact_numeric_upper_bounds :
     ∀ e ∈ table, isNumeric e = true →
       hasFiniteUpper e = true ∨ (e.topic = "/status/water/counter" ∧ e.pred = .greaterEqual (q 0 1)) := by decide
 
-/-- topic ↦ (controller, setter) is exactly the documented map (`.identity`: the payload names the trigger) -/
-theorem C14_fact_methods :
-    table.map (fun e => (e.topic, e.target, e.method)) = [
+/-- topic ↦ (controller, method): the routing the other properties rely on (`.identity`: the payload names the trigger) -/
+def expectedRouting : List (String × String × MethodSel) := [
       ("/settings/mode", "filtration", .identity),
       ("/settings/filtration/duration", "filtration", .const "duration"),
       ("/settings/filtration/period", "filtration", .const "period"),
@@ -200,7 +199,17 @@ theorem C14_fact_methods :
       ("/settings/disinfection/orp/enable", "disinfection", .const "orp_enable"),
       ("/settings/disinfection/orp/setpoint", "disinfection", .const "orp_setpoint"),
       ("/settings/disinfection/orp/pterm", "disinfection", .const "orp_pterm"),
-      ("/status/water/counter", "arduino", .const "restore_water_counter")] := by decide
+      ("/status/water/counter", "arduino", .const "restore_water_counter")]
+
+/-- topic ↦ (controller, setter) is exactly the documented map -/
+theorem C14_fact_methods :
+    table.map (fun e => (e.topic, e.target, e.method)) = expectedRouting := by decide
+
+/-- the same fact by lookup, insensitive to the order of `register`: every topic is routed to its controller and method -/
+theorem C14_fact_routing :
+    (expectedRouting.all fun (t, tg, m) => (entryOf table t).map (fun e => (e.target, e.method)) == some (tg, m)) = true ∧
+    table.length = expectedRouting.length := by decide
+
 
 /-- the mode whitelists -/
 theorem C14_fact_modes :
